@@ -186,6 +186,17 @@ async def _interp(ctx, ev, sp, prog):
 _NTH = {}  # step name -> entries so far in this case (reset with the recorder)
 
 
+def dec(x):
+    """decode spec values: {"$uuid": n} -> uuid.UUID(int=n), a value JsonSerializer cannot carry inside waiter requirements as is"""
+    if isinstance(x, dict):
+        if set(x) == {"$uuid"}:
+            import uuid
+
+            return uuid.UUID(int=int(x["$uuid"]))
+        return {k: dec(v) for k, v in x.items()}
+    return x
+
+
 def _val(spec, ev, att, default=None):
     """Resolve a parameter: literal, {'from': field} read from the event, list indexed by attempt."""
     if isinstance(spec, dict) and "nth" in spec:
@@ -266,7 +277,7 @@ async def _run_acts(ctx, ev, sp, prog, att, v, uid, bid):
             wid = act.get("wid")
             if wid is not None:
                 wid = wid.replace("{v}", str(v)).replace("{uid}", str(uid))
-            req = {kk: (v if vv == "{v}" else vv) for kk, vv in (act.get("req") or {}).items()}
+            req = {kk: (v if vv == "{v}" else dec(vv)) for kk, vv in (act.get("req") or {}).items()}
             # no explicit waiter id: the engine derives one; the harness keys its own records by invocation
             rwid = wid if wid is not None else f"default:{step}:{uid}"
             ask = None
